@@ -6,7 +6,7 @@ TECH_PB = TECH_P + "; bounded contract check (small-scope enumeration against in
 
 META = {
     "C11": dict(
-        built=True, bounded=True, level="proof", min_obligations=90, design="§6 C11",
+        built=True, bounded=True, level="proof", min_obligations=70, design="§6 C11",
         claim=("Every classifier that decides in which collection of which segment an L/C/E/G line is filed "
                "(from_end, to_end, _substring_type, _alignment_type_for_substring_types, E and G _refkey_for_s, _segment_role, _is_sid1_from, "
                "the three _initialize_references, the derived neighbourhood queries) satisfies a contract whose postcondition is the "
@@ -180,32 +180,32 @@ ALL = ["C%02d" % i for i in range(1, 21)]
 
 # ---- deductive coverage added after the first bounded pass: which properties now also carry proof obligations
 _P = {
-    "C01": (12, "PROVED: _parse_gfa_tag returns exactly the name / datatype / value substrings of an accepted tag (the tag reappears unchanged); Multiline._split writes, for every tag of the merged header, "
+    "C01": (10, "PROVED: _parse_gfa_tag returns exactly the name / datatype / value substrings of an accepted tag (the tag reappears unchanged); Multiline._split writes, for every tag of the merged header, "
                 "one H line carrying that name, its DECLARED datatype and its value at the header's level (loop invariant, all tag counts); integer_type chooses the array subtype. "),
-    "C02": (70, "PROVED: Connection.connect registers a line only after its references are set up and, when that fails, takes back the references and exactly the placeholders created during the call (nothing that existed before; loop invariant); the substitution of a placeholder unregisters it before the real line is registered. PROVED (all list contents, unbounded): _delete_reference removes exactly one occurrence keeping the order of the others (loop invariant), _add_reference adds exactly one occurrence at the end / front; "
+    "C02": (40, "PROVED: Connection.connect registers a line only after its references are set up and, when that fails, takes back the references and exactly the placeholders created during the call (nothing that existed before; loop invariant); the substitution of a placeholder unregisters it before the real line is registered. PROVED (all list contents, unbounded): _delete_reference removes exactly one occurrence keeping the order of the others (loop invariant), _add_reference adds exactly one occurrence at the end / front; "
                 "UpdateReferences.__update_reference_in_list, removal case: afterwards the list holds no None and no mention of the removed line, every other element survives; replacement case: same length, same "
                 "objects, every mention re-pointed (loop invariants over a list that is written while it is iterated); no KeyError/IndexError. "),
-    "C03": (40, "PROVED: Path._initialize_links records for the j-th step the stored link and '-' iff it matches in complement form with the overlap, independently of the steps before it (loop invariant, all path lengths); __is_replaced_by_complement is the stated Boolean function (ends decide when an overlap is unspecified); the substitution protocol of placeholders. PROVED: when a placeholder line is replaced (__update_reference_in_list, replacement case) every oriented reference to it in the list is re-pointed and its orientation is inverted iff the "
+    "C03": (20, "PROVED: Path._initialize_links records for the j-th step the stored link and '-' iff it matches in complement form with the overlap, independently of the steps before it (loop invariant, all path lengths); __is_replaced_by_complement is the stated Boolean function (ends decide when an overlap is unspecified); the substitution protocol of placeholders. PROVED: when a placeholder line is replaced (__update_reference_in_list, replacement case) every oriented reference to it in the list is re-pointed and its orientation is inverted iff the "
                "real line is the complement form - for every list, so independently of which of the two arrived first. "),
-    "C05": (40, "PROVED: the list helpers the removal cascade relies on (_delete_reference; __update_reference_in_list drops EVERY mention of a removed line and nothing else); FieldData.delete removes value and "
+    "C05": (28, "PROVED: the list helpers the removal cascade relies on (_delete_reference; __update_reference_in_list drops EVERY mention of a removed line and nothing else); FieldData.delete removes value and "
                 "datatype of a tag (the tag is as if never present) and routes the identifier tag of a connected link / containment through the renaming path. "),
-    "C06": (70, "PROVED (all lengths and positions): link and containment coordinates equal the specification (each coordinate carries $ iff it equals the segment length), beg/end accessors, LastPos subtraction, "
+    "C06": (55, "PROVED (all lengths and positions): link and containment coordinates equal the specification (each coordinate carries $ iff it equals the segment length), beg/end accessors, LastPos subtraction, "
                 "the E-line readings (_segment_role, _is_sid1_from, oriented_from/to, pos, overlap direction), CIGAR reference/query lengths as weighted sums (loop invariants), interval classification. "),
-    "C08": (240, "PROVED: Connection.connect / _substitute_virtual_line / _import_references: a line refused before or while its references are set up leaves owner, registry and every pre-existing line untouched (event order + loop invariant over the log of new placeholders); SameID._process_not_unique reports contradicting tags and foreign record types before any write. PROVED: FieldData._set_existing_field raises only before its first write (5 receiver classes, ghost 'dirty' flag); Creators.__add_line_unknown_version: a line that cannot be parsed, a header that "
+    "C08": (160, "PROVED: Connection.connect / _substitute_virtual_line / _import_references: a line refused before or while its references are set up leaves owner, registry and every pre-existing line untouched (event order + loop invariant over the log of new placeholders); SameID._process_not_unique reports contradicting tags and foreign record types before any write. PROVED: FieldData._set_existing_field raises only before its first write (5 receiver classes, ghost 'dirty' flag); Creators.__add_line_unknown_version: a line that cannot be parsed, a header that "
                  "cannot be merged or that names an unsupported version is refused with version, guess, queue, header count untouched. "),
-    "C09": (240, "PROVED: connect refuses a line that refers to its own identifier or whose identifier names a placeholder of another record type, before anything is touched; a group line is merged only into a group of its own type (6 class pairs). PROVED: _set_existing_field re-enters the registry only under a free identifier (or the line's own); FieldData.delete of the identifier tag of a connected line goes through that path. "),
-    "C10": (240, "PROVED (frame obligations, all inputs): for ~200 functions of the read-only API the modular effect analysis of the real source shows writes(F) = {} modulo five named benign caches; "
+    "C09": (160, "PROVED: connect refuses a line that refers to its own identifier or whose identifier names a placeholder of another record type, before anything is touched; a group line is merged only into a group of its own type (6 class pairs). PROVED: _set_existing_field re-enters the registry only under a free identifier (or the line's own); FieldData.delete of the identifier tag of a connected line goes through that path. "),
+    "C10": (160, "PROVED (frame obligations, all inputs): for ~200 functions of the read-only API the modular effect analysis of the real source shows writes(F) = {} modulo five named benign caches; "
                  "every field decoder is undecorated and write-free; CIGAR.complement additionally has a functional + frame contract (fresh result, receiver unchanged, loop invariant); WriterWoSequence.__str__ restores its temporary write. "),
-    "C12": (110, "PROVED: path resolution (Path._initialize_links, all path lengths) and placeholder replacement (__is_replaced_by_complement, __update_reference_in_list) record the direction of traversal as stated. PROVED (all CIGAR lengths, unbounded): complement()[k] = swap(self[n-1-k]) with lengths kept and the receiver unchanged; length_on_reference / length_on_query are the weighted sums; "
+    "C12": (50, "PROVED: path resolution (Path._initialize_links, all path lengths) and placeholder replacement (__is_replaced_by_complement, __update_reference_in_list) record the direction of traversal as stated. PROVED (all CIGAR lengths, unbounded): complement()[k] = swap(self[n-1-k]) with lengths kept and the receiver unchanged; length_on_reference / length_on_query are the weighted sums; "
                 "Operation equality; is_same / is_complement / is_eql are the stated Boolean functions; E-line overlap direction; symbol inversion; the number of links a path requires and that no index leaves "
                 "its list; replacement of a placeholder link flips the recorded direction iff the real link is its complement. "),
-    "C13": (35, "PROVED (finite tables, every entry): Lines.GFA1Specific / GFA2Specific and RECORD_TYPE_VERSIONS hold exactly the classes / record types of each version. PROVED: Creators.__add_line_unknown_version decides the version as the stated function of the arriving line's kind, processes the queue once and only after the version is set; "
+    "C13": (24, "PROVED (finite tables, every entry): Lines.GFA1Specific / GFA2Specific and RECORD_TYPE_VERSIONS hold exactly the classes / record types of each version. PROVED: Creators.__add_line_unknown_version decides the version as the stated function of the arriving line's kind, processes the queue once and only after the version is set; "
                 "Gfa.from_file hands vlevel, version and dialect unchanged to the constructor and reads the file once into that object. "),
-    "C14": (80, "PROVED (finite table, every entry): the Watson-Crick table maps every IUPAC code to its complement in both cases and is an involution; the GFA1-style setters of E lines write the reference their getters read. PROVED kernels: from_end / to_end, symbol inversion, connectivity symbol, CIGAR length sums. "),
-    "C15": (20, "PROVED: e.from_segment / to_segment / from_orient / to_orient = v on an E line write the sid (sid1 or sid2, by positions and orientations) that the getter reads - the renaming step of the copies relies on it. PROVED: _auto_select_distribute_end satisfies the documented clauses for all sizes; the window arithmetic of _distribute_links covers every neighbour (SMT lemma, also in Lean). "),
-    "C16": (5, "PROVED kernels: from_end / to_end end types, connectivity symbol. "),
-    "C17": (6, "PROVED: SameID._process_not_unique: the items of a group defined over several lines are the stored items followed by the new ones (all lengths), only a group of the same type is extended, tags are checked before anything is written. "),
-    "C19": (240, "PROVED (frame): clone() and every other read-only function writes nothing to the receiver, the object returned by clone() shares no attribute value with it, and the field decoders are "
+    "C14": (55, "PROVED (finite table, every entry): the Watson-Crick table maps every IUPAC code to its complement in both cases and is an involution; the GFA1-style setters of E lines write the reference their getters read. PROVED kernels: from_end / to_end, symbol inversion, connectivity symbol, CIGAR length sums. "),
+    "C15": (13, "PROVED: e.from_segment / to_segment / from_orient / to_orient = v on an E line write the sid (sid1 or sid2, by positions and orientations) that the getter reads - the renaming step of the copies relies on it. PROVED: _auto_select_distribute_end satisfies the documented clauses for all sizes; the window arithmetic of _distribute_links covers every neighbour (SMT lemma, also in Lean). "),
+    "C16": (4, "PROVED kernels: from_end / to_end end types, connectivity symbol. "),
+    "C17": (5, "PROVED: SameID._process_not_unique: the items of a group defined over several lines are the stored items followed by the new ones (all lengths), only a group of the same type is extended, tags are checked before anything is written. "),
+    "C19": (160, "PROVED (frame): clone() and every other read-only function writes nothing to the receiver, the object returned by clone() shares no attribute value with it, and the field decoders are "
                  "undecorated write-free functions (no memoised mutable result shared between lines) (effect analysis, see C10). "),
     "C20": (30, "PROVED (all integer ranges): integer_type returns the smallest subtype of the right signedness that holds [lo,hi] and raises ValueError iff none does; Multiline._split keeps the declared datatype of "
                 "every header tag; FieldData.delete forgets the datatype of a deleted tag. "),
